@@ -193,12 +193,13 @@ def obligations(tier, seed):
         out.append({"name": "empty-wildcard/%s" % version, "fn": "h_empty_wildcard", "pre": "pre_ew", "args": [["c", "int"]],
                     "config": {"version": version, "ew": True}, "timeout": 200, "twin_timeout": 30,
                     "bound": "children %r under a model with a required strict wildcard that admits no positive namespace" % (EW_KIDS,)})
-    out.append({"name": "arith/1.0", "fn": "h_arith", "pre": "pre_arith", "args": [["k", "int"], ["p", "int"], ["y", "int"]],
-                "config": {"version": "1.0", "arith": True}, "timeout": 300, "twin_timeout": 30,
-                "bound": "identity fields of type date / duration / gYear with values from %r, %r, %r" % (A_DATES, A_DURS, A_YEARS)})
-    out.append({"name": "arith/1.1", "fn": "h_arith", "pre": "pre_arith", "args": [["k", "int"], ["y", "int"], ["m", "int"], ["d", "int"]] + ([] if quick else [["p", "int"]]),
-                "config": {"version": "1.1", "arith": True, "fixed_p": 0}, "timeout": 400 if quick else 1500, "twin_timeout": 30,
-                "bound": "the same identity fields plus type-alternative tests doing integer arithmetic and gYear casts on attributes from %r" % (A_INTS,)})
+    for name, version, args_q, args_t in (("arith/1.0/fields", "1.0", ("k", "p"), ("k", "p", "y")), ("arith/1.1/alternatives", "1.1", ("m", "d"), ("m", "d", "y")),
+                                        ("arith/1.1/years", "1.1", ("y", "k"), ("y", "k", "p"))):
+        a = args_q if quick else args_t
+        out.append({"name": name, "fn": "h_arith", "pre": "pre_arith", "args": [[x, "int"] for x in a],
+                    "config": {"version": version, "arith": True, "with_e": version == "1.1"}, "timeout": 400 if quick else 2400, "twin_timeout": 30,
+                    "bound": "identity fields (date %r, duration %r, gYear %r) and, in XSD 1.1, type-alternative tests over integers %r; symbolic: %r" % (
+                        A_DATES, A_DURS, A_YEARS, A_INTS, a)})
     for api in ("is_valid", "decode"):
         out.append({"name": "recursion/%s" % api, "engine": "smt", "fn": "smt_recursion", "config": {"api": api}, "timeout": 120,
                     "bound": "all depths 1..MAX_XML_DEPTH (linear frame model measured at depths 5, 10, 20)"})
@@ -479,12 +480,14 @@ def h_arith(**kw) -> bool:
     from engine.sym import pick
     schema = _arith_schema(CFG["version"])
     root = ET.Element('root')
-    a1 = ET.SubElement(root, 'a', {"k": A_DATES[pick(kw["k"], 4)], "p": A_DURS[pick(kw["p"], 4)] if "p" in kw else A_DURS[0]})
-    a1.text = A_YEARS[pick(kw["y"], 4)]
+    a1 = ET.SubElement(root, 'a', {"k": A_DATES[pick(kw["k"], 4)] if "k" in kw else A_DATES[0], "p": A_DURS[pick(kw["p"], 4)] if "p" in kw else A_DURS[0]})
+    yi = pick(kw["y"], 4) if "y" in kw else 0
+    a1.text = A_YEARS[yi]
     a2 = ET.SubElement(root, 'a', {"k": "2000-01-01", "p": "P1Y"})
     a2.text = "2000"
-    if "m" in kw:
-        e = ET.SubElement(root, 'e', {"m": A_INTS[pick(kw["m"], 4)], "d": A_INTS[pick(kw["d"], 4)], "y": A_YEARS[pick(kw["y"], 4)]})
+    if CFG.get("with_e"):
+        e = ET.SubElement(root, 'e', {"m": A_INTS[pick(kw["m"], 4)] if "m" in kw else A_INTS[0], "d": A_INTS[pick(kw["d"], 4)] if "d" in kw else A_INTS[0],
+                                      "y": A_YEARS[yi]})
         e.text = 'v'
     try:
         list(schema.iter_errors(root))
